@@ -731,40 +731,46 @@ BINARY_AVX2_ONLY (cmpgtsq, pcmpgtq)
 BINARY_AVX2_ONLY (addq, paddq)
 BINARY_AVX2_ONLY (subq, psubq)
 
+/* In the partial iterations at the ends of an array (smaller loop_shift)
+ * only the first size << loop_shift bytes of a register belong to array
+ * elements.  What the other lanes hold after, say, adding a constant must not
+ * reach an accumulator, which sums every lane: returns a register holding
+ * the valid lanes only. */
+static int
+avx_acc_valid_lanes (OrcCompiler *p, OrcInstruction *insn)
+{
+  const int src = p->vars[insn->src_args[0]].alloc;
+  const int valid = p->vars[insn->src_args[0]].size << p->loop_shift;
+  int tmp;
+
+  if (valid >= 32) {
+    return src;
+  }
+
+  tmp = orc_compiler_get_temp_reg (p);
+  if (valid >= 16) {
+    /* a VEX.128 move clears the upper half of the destination */
+    orc_avx_sse_emit_movdqa (p, src, tmp);
+  } else {
+    orc_avx_sse_emit_pslldq_imm (p, 16 - valid, src, tmp);
+  }
+  return tmp;
+}
+
 static void
 avx_rule_accw (OrcCompiler *p, void *user, OrcInstruction *insn)
 {
-  const int src = p->vars[insn->src_args[0]].alloc;
   const int dest = p->vars[insn->dest_args[0]].alloc;
 
-  const int size = p->vars[insn->src_args[0]].size << p->loop_shift;
-
-  // More than one element and it's unsafe
-  if (size >= 2) {
-    orc_avx_emit_paddw (p, dest, src, dest);
-  } else {
-    orc_avx_sse_emit_paddw (p, dest, src, dest);
-  }
+  orc_avx_emit_paddw (p, dest, avx_acc_valid_lanes (p, insn), dest);
 }
 
 static void
 avx_rule_accl (OrcCompiler *p, void *user, OrcInstruction *insn)
 {
-  const int src = p->vars[insn->src_args[0]].alloc;
   const int dest = p->vars[insn->dest_args[0]].alloc;
 
-  if (p->loop_shift == 0) {
-    orc_avx_sse_emit_pslldq_imm (p, 12, src, src);
-  }
-
-  const int size = p->vars[insn->src_args[0]].size << p->loop_shift;
-
-  // More than one element and it's unsafe
-  if (size >= 4) {
-    orc_avx_emit_paddd (p, dest, src, dest);
-  } else {
-    orc_avx_sse_emit_paddd (p, dest, src, dest);
-  }
+  orc_avx_emit_paddd (p, dest, avx_acc_valid_lanes (p, insn), dest);
 }
 
 static void
